@@ -51,6 +51,7 @@ class World:
         self.fn_cache = {}
         import threading
         self._tls = threading.local()
+        self.flip = {}                                         # (algebra, body) -> second registration, other mode
         self.prev_results = {}                                 # (caller, op index) -> returned MultiVector
         for r in spec.get('registered', []):
             self.regspec[(r['alg'], r['body'])] = r
@@ -60,7 +61,7 @@ class World:
         entry = bodies.LIB[bid]
         # the same Python function object is registered again on re-registration, and - for bodies that call
         # no other registered function - on every algebra of the world
-        ck = bid if not entry['deps'] else (ai, bid)
+        ck = bid if not (entry['deps'] or entry.get('selfref')) else (ai, bid)
         if ck not in self.fn_cache:
             self.fn_cache[ck] = entry['factory'](self.ns[ai])
         fn = self.fn_cache[ck]
@@ -77,6 +78,21 @@ class World:
             obj = alg.register(fn, **kw)
         self.ns[ai][bid] = obj
         return obj
+
+    def flip_handle(self, ai, bid):
+        """A second registration of the *same function object* with the other value of `symbolic`: the user holds
+        both handles; each must behave as it does on an algebra where it is the only registration."""
+        if (ai, bid) not in self.flip:
+            r = self.regspec.get((ai, bid), {'alg': ai, 'body': bid})
+            entry = bodies.LIB[bid]
+            ck = bid if not (entry['deps'] or entry.get('selfref')) else (ai, bid)
+            if ck not in self.fn_cache:
+                self.fn_cache[ck] = entry['factory'](self.ns[ai])
+            kw = {'symbolic': not r.get('symbolic')}
+            if r.get('name') is not None:
+                kw['name'] = r['name']
+            self.flip[(ai, bid)] = self.algebras[ai].register(self.fn_cache[ck], **kw)
+        return self.flip[(ai, bid)]
 
     def register_all(self, ai=None, only=None):
         for r in self.spec.get('registered', []):
@@ -317,6 +333,12 @@ def apply_op(world, op, args):
             return list(alg.blades.grade(*op['params']).values())
         raise ValueError(name)
     if kind == 'reg':
+        if op.get('mode') == 'flip':
+            # only what the function calls is registered first; the function itself through its second handle
+            for b in bodies.closure([op['fn']]):
+                if b != op['fn'] and b not in world.ns[ai]:
+                    world.register(ai, b)
+            return world.flip_handle(ai, op['fn'])(*args)
         if op['fn'] not in world.ns[ai]:
             for b in bodies.closure([op['fn']]):
                 if b not in world.ns[ai]:
